@@ -29,7 +29,7 @@ THEOREMS = [
     "C12_unauthorized_signer_rejected",
     "C12_deleverage_health_not_worse", "C12_deleverage_bracket", "C12_deleverage_only_risk_admin",
     "C12_daily_limit", "C12_daily_resets_spaced", "C12_daily_limit_wrap_refuted", "C12_daily_limit_saturation_refuted",
-    "C12_deleverage_tx_window",
+    "C12_deleverage_tx_window", "C12_purge_guard",
 ]
 RULE = ("privsim: 1-6 real admin instructions per case on two fixture banks (frozen in ~45% of the cases) by the entitled signer (88%) or "
         "another role; arguments: every Option combination, flag words = subsets of the 7 defined bits, single bits 0..63, the masks "
@@ -38,11 +38,12 @@ RULE = ("privsim: 1-6 real admin instructions per case on two fixture banks (fro
         "(lender, borrower, limit configured) followed by 2-7 deleverage transactions with withdrawn dollars around the remaining "
         "limit (+-1 dollar), repayments around the health-neutral amount, clock steps around 86400 s after the last reset, plus "
         "random transactions (wrong signer, withdraw_all / repay_all, several withdrawals, no limit, limit u32::MAX, single "
-        "withdrawals around 2^32 dollars). Non-trivial = at least one successful instruction that changed something; distinct = different case line")
+        "withdrawals around 2^32 dollars), tokenless repayments and lending_account_purge_delev_balance with and without the COMPLETE flag. Non-trivial = at least one successful instruction that changed something; distinct = different case line")
 ASSUMPTIONS = [
     "the bytes of a bank outside the modelled fields are one opaque token of the model (pb_rest); that the real handlers leave them alone is what the level-C byte diff checks (paddings included), not a theorem",
     "validate_oracle_setup (oracle accounts) and the existence of the emissions token account are external inputs of the model (tabulated from the real handler for the privsim world)",
     "account validation other than the role check (seeds, ownership, group membership) is C08",
+    "lending_account_purge_delev_balance is modelled (guards, balance closed, shares removed) and differentially executed; its frame is checked by the world dump of delevsim, not by a byte diff",
     "deleverage: banks use Fixed-price oracles (as suite hops); the transaction shape enforced by instruction introspection is built into the model; the integration withdraw instructions (kamino / drift / solend) are not modelled",
     "the health compared by end_deleverage is the one the real risk engine computes at the two instants; equal-price assumptions are not needed",
 ]
@@ -384,6 +385,12 @@ def gen_delev_case(rng):
         ops.append([31, who, 1, len(ws)] + [x for w_ in ws for x in w_] + [len(rs)] + [x for r_ in rs for x in r_])
         if who == 0:
             used += int(usd(c, ws[0][1]))     # rough: the generator does not know whether the transaction passed
+        if rng.random() < (0.25 if mode == "tokenless" else 0.03):
+            # purge a lender's balance (needs TOKENLESS_REPAYMENTS_COMPLETE on the bank, the risk admin's signature)
+            pb = rng.choice([d, d, c])
+            if rng.random() < 0.5:
+                ops.append([32, pb, rng.choice([TOKENLESS_ALLOWED | TOKENLESS_COMPLETE, TOKENLESS_COMPLETE | 16, TOKENLESS_ALLOWED])])
+            ops.append([33, 0 if rng.random() < 0.85 else 1, rng.choice([0, 0, 1]), pb])
     toks = [nb, na] + pf + [banks[0][7]]
     for bk in banks:
         toks += bk
@@ -631,6 +638,8 @@ def parse_delev_case(case):
             ln = 4
         elif op in (19, 30, 32):
             ln = 3
+        elif op == 33:
+            ln = 4
         elif op == 31:
             nw = t[i + 3]
             nr = t[i + 4 + 3 * nw]
@@ -642,6 +651,19 @@ def parse_delev_case(case):
     if i != len(t):
         raise ValueError("case not fully parsed")
     return nb, na, banks, ops
+
+
+def parse_delev_bank_flags(case, nb):
+    t = list(map(int, case.split()))
+    i = 6
+    out = []
+    for _ in range(nb):
+        f = t[i:i + G.BANK_TOKS]
+        i += G.BANK_TOKS
+        x = t[i:i + H.HB_EXTRA]
+        i += H.HB_EXTRA + 4 * x[12]
+        out.append(f)
+    return out
 
 
 def parse_delev_out(s, nb):
@@ -666,6 +688,7 @@ def oracle_delevsim(case, impl):
         return {"key": "oracle-error", "what": "output has %d parts for %d ops" % (len(parts), len(ops))}
     viol = []
     vault_prev = [0] * nb
+    bflags_prev = [banks_tok[12] for banks_tok in parse_delev_bank_flags(case, nb)]
     g_prev = (0, 0, 0)
     window = []            # whole dollars of the withdrawals accepted since the last reset
     last_reset_by_tx = None
@@ -729,7 +752,13 @@ def oracle_delevsim(case, impl):
                     key = "daily-limit-exceeded"
                     what = "withdrawals of %r whole dollars since the last reset exceed the daily limit %d" % (window, limit)
                 viol.append({"key": key, "what": what})
+        if op == 33 and status == "OK":
+            if o_[1] != 0:
+                viol.append({"key": "purge-by-non-risk-admin", "what": "lending_account_purge_delev_balance signed by the account authority succeeded"})
+            if not bflags_prev[o_[3]] & TOKENLESS_COMPLETE:
+                viol.append({"key": "purge-without-complete-flag", "what": "bank flags %#x" % bflags_prev[o_[3]]})
         vault_prev = vaults
+        bflags_prev = [int(b.split()[11]) for b in outp.split(" # ")[1].split(" ; ")]
         g_prev = g
     return pick(viol)
 
